@@ -236,7 +236,7 @@ def work(shard, tier):
                             # (a non-ASCII result is a pass-through, which is C15's business, not a wrong translation)
                             add(viols, 'C14|%s|other-script-digits-change-the-number' % name,
                                 'validate(%r) = %r but the same digits typed as %r give %r' % (v, base, y, o),
-                                {'kind': 'mod', 'module': name, 'ascii': v, 'lookalike': y})
+                                {'kind': 'mod', 'module': name, 'ascii': v, 'lookalike': y, 'clause': 'other-script'})
                     # characters with a digit value but no decimal value (superscripts, circled digits) must not be
                     # turned into digits
                     dpos = [i for i, ch in enumerate(v) if ch in '0123456789']
@@ -252,7 +252,7 @@ def work(shard, tier):
                             if o[0] == 'ok' and o == base and base[0] == 'ok':
                                 add(viols, 'C14|%s|non-decimal-character-read-as-digit' % name,
                                     'validate(%r) = %r: U+%04X has no Unicode decimal value but was read as %s' % (y, o, ord(a), v[p]),
-                                    {'kind': 'mod', 'module': name, 'ascii': v, 'lookalike': y})
+                                    {'kind': 'mod', 'module': name, 'ascii': v, 'lookalike': y, 'clause': 'non-decimal'})
                 # (1d) the same number with leading zeros of its separated sections dropped, if that spelling is accepted:
                 # look-alike separators must then work as the ASCII ones do
                 parts = re.split(r'([ \-./])', v)
@@ -324,6 +324,13 @@ def replay(w):
         mod = C.number_modules()[w['module']]
         a = C.short(C.outcome(mod.validate, w['ascii']))
         b = C.short(C.outcome(mod.validate, w['lookalike']))
-        if a != b:
+        clause = w.get('clause', 'lookalike')
+        if clause == 'non-decimal':
+            if b[0] == 'ok' and a == b:
+                add(viols, 'C14|%s|non-decimal-character-read-as-digit' % w['module'], '%r read as %r' % (w['lookalike'], b), w)
+        elif clause == 'other-script':
+            if b[0] == 'ok' and a != b and isinstance(b[1], str) and b[1].isascii():
+                add(viols, 'C14|%s|other-script-digits-change-the-number' % w['module'], '%r vs %r' % (a, b), w)
+        elif a != b:
             add(viols, 'C14|%s|lookalike-differs' % w['module'], '%r vs %r' % (a, b), w)
     return list(viols.values())
